@@ -410,7 +410,13 @@ pub fn check_b(ctx: &Ctx, bytes: &Vec<u8>) -> Result<(), Fail> {
         });
     }
     if with_const {
-        decl.push("const N: usize".into());
+        // a const parameter may stand anywhere after the lifetimes, also before or between type parameters
+        let pos = lparams.len() + d.below(tparams.len() + 1);
+        decl.insert(pos.min(decl.len()), "const N: usize".into());
+        if d.ratio(1, 4) {
+            let pos2 = lparams.len() + d.below(tparams.len() + 2);
+            decl.insert(pos2.min(decl.len()), "const M: u8".into());
+        }
     }
     let where_clause = match d.below(4) {
         0 => String::new(),
